@@ -258,6 +258,23 @@ func init() {
 				st.sample(map[string]any{"grammar": it.Text, "tokens": strings.Join(seq, " "), "log": logStr(rec)})
 			}
 		}
+		if only, ok := spec.Opt["only_tokens"].([]any); ok {
+			for _, t := range only {
+				seq = append(seq, fmt.Sprint(t))
+			}
+			seq2 := seq
+			seq = nil
+			for _, t := range seq2 {
+				seq = append(seq, t)
+				a := viable[len(viable)-1] && e.Extend(t)
+				if !viable[len(viable)-1] {
+					e.Extend(t)
+				}
+				viable = append(viable, a)
+			}
+			check()
+			return
+		}
 		check()
 		var rec func(d int)
 		rec = func(d int) {
